@@ -66,6 +66,7 @@ type KdcScenario struct {
 type kdcConn struct {
 	Proto, Addr, Behaviour string
 	Got                    []byte
+	Reached                bool // a read of the KDC returned (also for an empty datagram)
 	Reply                  []byte
 	pc                     *vnet.PipeConn
 }
@@ -148,6 +149,7 @@ func RunKdc(sc KdcScenario, prefix []int, logOn bool) *KdcResult {
 			gwEnd, kdcEnd := vnet.NewPipe(fmt.Sprintf("gw>kdc%d", idx), fmt.Sprintf("kdc%d", idx), network != "udp")
 			if network == "udp" {
 				gwEnd.NoEOF, kdcEnd.NoEOF = true, true
+				gwEnd.MaxDatagram, kdcEnd.MaxDatagram = 65507, 65507
 			}
 			kc.pc = gwEnd
 			kc.Reply = kdcReply(idx, network)
@@ -161,6 +163,7 @@ func RunKdc(sc KdcScenario, prefix []int, logOn bool) *KdcResult {
 						if err != nil {
 							return false
 						}
+						kc.Reached = true
 						if network == "udp" || (len(kc.Got) >= 4 && len(kc.Got) >= 4+int(binary.BigEndian.Uint32(kc.Got))) {
 							return true
 						}
@@ -273,6 +276,10 @@ func kdcCheck(sc KdcScenario, res *KdcResult) (outcome string, v []vsched.Violat
 	// who could have answered
 	var good []*kdcConn
 	for _, c := range res.Conns {
+		// a KDC can only have answered a request that reached it (a datagram too large for UDP never does)
+		if !c.Reached {
+			continue
+		}
 		if (c.Proto == "udp" && c.Behaviour == "reply") || (c.Proto == "tcp" && goodTCP[c.Behaviour]) {
 			good = append(good, c)
 		}
@@ -393,6 +400,7 @@ func c20(env *Env, rep *Report) {
 	rep.Rule = fmt.Sprintf("%d request scenarios against the real kdcproxy handler with scripted KDC connections: 1 KDC: realms {default, absent, second, unknown} x Kerberos payload sizes {0,1,3,4,5,100,1500,65535,128KiB-32} x UDP behaviour {reply, silent, refuse} x TCP behaviour {reply then close, reply and keep open, reply in two writes, half a reply then close, close at once, silent, refuse}; 2 and 3 KDCs: every combination of those behaviours (quick: 3 KDCs without two-writes/close-at-once). "+
 		"Each runs under the default schedule with deadlines firing at quiescence; selected scenarios additionally under every schedule of handler, reply readers and KDC threads up to the preemption bound. Oracle: KDCs of the right realm receive exactly the embedded message (TCP with, UDP without the 4-byte prefix); if any connection delivers a complete reply the response is 200 and its kerb-message is exactly one KDC's reply (length-prefixed); otherwise an error status; always an HTTP response and no goroutine left. Histories: 32 ordered pairs of requests in one process (first: each realm form, answered or not; second: each realm form), the second judged like a first request. Malformed requests are part of C10(d). Binding: the real rdpgw binary with a kerberos configuration and scripted KDCs on loopback TCP/UDP sockets (realms whose KDC replies over TCP, over UDP, stays silent, refuses TCP, truncates its reply; unknown realm; other methods; malformed bodies): every request gets an HTTP response with the status and bytes above. distinct_nontrivial = distinct scenarios.", len(scs))
 	rep.Assumptions = append(rep.Assumptions,
+		"a UDP write of more than 65507 bytes fails with EMSGSIZE, as on a real socket",
 		"KDC order is randomised by gokrb5 (math/rand) and by map iteration: behaviours are assigned to connections in dial order, so the execution structure does not depend on it",
 		"a deadline fires only at quiescence, earliest first", "UDP peers going away are not observable (no EOF on datagram sockets)",
 		"requests are DER with explicit tags as MS-KKDCP prescribes")
